@@ -639,15 +639,23 @@ func (t *Target) gnmiRemove(n *pb.Notification) []*ctree.Leaf {
 		t.meta.ResetEntry(path[1])
 	}
 	var leaves []*ctree.Leaf
+	var deleted int64
 	f := func(v interface{}) {
 		d := v.(*pb.Notification)
 		leaves = append(leaves, ctree.DetachedLeaf(toDeleteNotification(d, n.GetTimestamp())))
+		// Metadata leaves are not counted when added, so don't count them when deleted.
+		suffix := d.Update[0].GetPath()
+		if d.Atomic {
+			suffix = nil
+		}
+		if p := joinPrefixAndPath(d.Prefix, suffix); len(p) == 0 || p[0] != metadata.Root {
+			deleted++
+		}
 	}
 	t.t.WalkDeleted(path, func(v interface{}) bool { return v.(*pb.Notification).GetTimestamp() < n.GetTimestamp() }, f)
 	if len(leaves) == 0 {
 		return nil
 	}
-	deleted := int64(len(leaves))
 	t.meta.AddInt(metadata.LeafCount, -deleted)
 	t.meta.AddInt(metadata.DelCount, deleted)
 	return leaves
